@@ -7,6 +7,7 @@ import random, re
 BASE = ['i64', 'u8', 'bool', 'String']
 KEYS = ['i64', 'u8', 'String']
 
+LEN_SPELLINGS = ['1', '3', '4', '3', '4', '4usize', '0x3', '0b11', '0o4', '1_0', '0x0_4', '3_usize']
 def gen_type(rng, depth, ctx):
     """a field type whose values the harness can make (trait Mk) and compare; ctx: dict(tparams=[..], lt='a or None, constn=bool)"""
     opts = ['base', 'base']
@@ -27,7 +28,7 @@ def gen_type(rng, depth, ctx):
     if k == 'tuple3': return f"({sub()}, {sub()}, {sub()},)"
     if k == 'tuple1': return f"({sub()},)"
     if k == 'unit': return "()"
-    if k == 'array': return f"[{sub()}; {rng.choice([1, 3, 4])}]"
+    if k == 'array': return f"[{sub()}; {rng.choice(LEN_SPELLINGS)}]"        # every spelling of an integer literal: separators, radix prefix, type suffix
     if k == 'arrayn': ctx['used'].add('N'); return f"[{sub()}; N]"
     if k == 'hashmap': return f"std::collections::HashMap<{rng.choice(KEYS)}, {sub()}>"
     if k == 'btreemap': return f"std::collections::BTreeMap<{rng.choice(KEYS)}, {sub()}>"
@@ -336,6 +337,8 @@ KNOWN_BAD = {
          "pub trait Has { type Item; }\n#[derive(Debug, Clone, PartialEq)]\npub struct H;\nimpl Has for H { type Item = u8; }\n#[derive(Debug, Clone, PartialEq, Difference)]\npub struct D<T: Has + Clone + PartialEq + std::fmt::Debug> where T::Item: Clone + PartialEq + std::fmt::Debug { pub x: T, pub item: T::Item, pub n: u8 }\n"),
  'D24': ("an enum with a variant named Diff or DiffRef: inside the generated impl `Self::Diff` is ambiguous between the variant and the associated type",
          "#[derive(Debug, Clone, PartialEq, Difference)]\npub enum D { Diff, Patch(u8), DiffRef { x: u8 } }\n"),
+ 'D25': ("an array length (or const-parameter default) written as an integer literal with a type suffix, a radix prefix or `_` separators ([u8; 4usize], [u8; 0x10], [u8; 1_0], const N: usize = 0x2): the parser reads plain decimal only and then drops the length",
+         "#[derive(Debug, Clone, PartialEq, Difference)]\npub struct D<const N: usize = 0x2> { pub a: [u8; 4usize], pub b: [u8; 0x10], pub c: Option<[i64; 1_0]>, pub d: [u8; N], pub e: [bool; 0b11], pub n: u8 }\n"),
  'D7': ("trailing comma inside a difference attribute", "#[derive(Debug, Clone, PartialEq, Difference)]\npub struct D { #[difference(skip,)] pub f0: i64, pub f1: i64 }\n"),
  'D8': ("generic parameter used only behind a reference inside another type", "#[derive(Debug, Clone, PartialEq, Difference)]\npub struct D<'a, T> { pub o: Option<&'a T> }\n"),
  'D8b': ("generic parameter used only as the head of an associated-type path (same cause as D8: the used-parameter test compares the parameter's name with whole base strings)",
@@ -362,7 +365,7 @@ def gen_parse_type(rng, depth):
     if k == 'tuple1': t, ok = s(); return f"({t},)", ok
     if k == 'unit': return "()", True
     if k == 'array': t, ok = s(); return f"[{t}]", ok
-    if k == 'arraylit': t, ok = s(); return f"[{t}; {rng.choice([0, 4, 16])}]", ok
+    if k == 'arraylit': t, ok = s(); return f"[{t}; {rng.choice([0, 4, 16, '4usize', '0x10', '1_6', '0b100', '0o20', '0_usize'])}]", ok
     if k == 'arrayname': t, ok = s(); return f"[{t}; N]", ok
     if k == 'never': return "!", True
     if k == 'lifetimearg': t, ok = s(); return f"Cow<'a, {t}>", ok
